@@ -5,7 +5,7 @@ import "strings"
 func init() { register("C16", genC16) }
 
 func genC16(o *Out) {
-	fb := o.pinFile("base/block.go", "IsValidProposalWithManifest", "IsValidOperationsTreeWithManifest", "IsValidStatesTreeWithManifest", "IsValidVoteproofsWithManifest")
+	fb := o.pinFile("base/block.go", "IsValidProposalWithManifest", "IsValidOperationsTreeWithManifest", "IsValidStatesTreeWithManifest", "IsValidVoteproofsWithManifest", "IsValidGenesisOperation")
 	fi := o.pinFile("isaac/block/importer.go", "BlockImporter.WriteItem", "BlockImporter.Save", "BlockImporter.importItem", "BlockImporter.importOperations",
 		"BlockImporter.importStates", "BlockImporter.importStatesTree", "BlockImporter.importVoteproofs", "BlockImporter.importOther", "BlockImporter.isfinished")
 	fv := o.pinFile("isaac/block/validator.go", "IsValidBlockFromLocalFS", "loadBlockItemsFromReader", "IsValidOperationsOfBlock", "IsValidStatesOfBlock", "isValidVoteproofsFromLocalFS")
@@ -50,4 +50,17 @@ func genC16(o *Out) {
 		strings.Contains(body(fv, "", "IsValidOperationsOfBlock"), "base.IsValidOperationsTreeWithManifest(opstree, ops, manifest)") &&
 		strings.Contains(body(fv, "", "IsValidStatesOfBlock"), "base.IsValidStatesTreeWithManifest(ststree, sts, manifest)") &&
 		strings.Contains(body(fv, "", "isValidVoteproofsFromLocalFS"), "base.IsValidVoteproofsWithManifest(vps, m)"))
+	// the own-validity pass of both gates: every operation and every state, not depending on the callbacks
+	vo := body(fv, "", "IsValidOperationsOfBlock")
+	o.boolean("validatorOpSelf", strings.Contains(vo, "if len(ops) > 0 { if err := util.BatchWork(context.Background(), int64(len(ops)), 333,") &&
+		strings.Contains(vo, "op := ops[i] if err := op.IsValid(networkID); err != nil { return err }"))
+	vs := body(fv, "", "IsValidStatesOfBlock")
+	o.boolean("validatorStateSelf", strings.Contains(vs, "if len(sts) > 0 { if err := util.BatchWork(context.Background(), int64(len(sts)), 333,") &&
+		strings.Contains(vs, "st := sts[i] if err := st.IsValid(networkID); err != nil { return err }"))
+	io := body(fi, "BlockImporter", "importOperations")
+	o.boolean("importerOpSelf", strings.HasPrefix(io, "{ validate := func(op base.Operation) error { return op.IsValid(im.networkID) } if im.m.Manifest().Height() == base.GenesisHeight { validate = func(op base.Operation) error { return base.IsValidGenesisOperation(op, im.networkID, im.m.Signer()) } }") &&
+		strings.Contains(io, "default: if err := validate(op); err != nil { return err } ops[index] = op"))
+	o.boolean("importerGenesisOpSelf", strings.HasPrefix(body(fb, "", "IsValidGenesisOperation"),
+		"{ e := util.ErrInvalid.Errorf(\"genesis operation\") if err := op.IsValid(networkID); err != nil { return e.Wrap(err) }"))
+	o.boolean("importerStateSelf", strings.Contains(body(fi, "BlockImporter", "importStates"), "default: if err := st.IsValid(nil); err != nil { return err }"))
 }
